@@ -526,3 +526,69 @@ def empty_gate(fn, objmatch=None, is_empty=True):
         e = emptiness(fn, atom, pol)
         return e is not None and e[1] == is_empty and (objmatch is None or objmatch(e[0]))
     return fn.gate_edges(pred)
+
+
+def memberwise_eq_missing(P, fn):
+    """for `bool T::operator==(T const &o) const`: the fields of T that a `true` result does NOT imply equal
+    (each field must appear in a conjunct `f == o.f` of the returned expression).  None if the shape is not understood."""
+    rec = P.records.get(fn.record) if fn.record else None
+    if rec is None or len(fn.params) != 1:
+        return None
+    other = fn.params[0]['ref']
+    fields = [f['ref'] if isinstance(f, dict) and 'ref' in f else None for f in rec.get('fields', [])]
+    names = [f['name'] for f in rec.get('fields', []) if not f.get('static')]
+    covered = set()
+    rets = fn.returns()
+    if len(rets) != 1 or fn.ret_value(rets[0]) is None:
+        return None
+    for (atom, pol) in fn.cond_facts(fn.ret_value(rets[0]), True):
+        n = fn.N(atom)
+        if pol is not True or n.get('op') != '==' or n['k'] not in ('BinaryOperator', 'CXXOperatorCallExpr'):
+            continue
+        ch = n['ch'] if n['k'] == 'BinaryOperator' else n['ch'][1:]
+        if len(ch) != 2:
+            continue
+        pa, pb = fn.access_path(ch[0]), fn.access_path(ch[1])
+        if not pa or not pb or len(pa) != 2 or len(pb) != 2 or pa[1] != pb[1]:
+            continue
+        roots = {pa[0], pb[0]}
+        if roots == {'this', other}:
+            covered.add(pa[1].rsplit('::', 1)[-1])
+    return [nm for nm in names if nm not in covered]
+
+
+def _ancestors(P, brec):
+    """the class and all its (transitive) bases, template-stripped"""
+    out, todo = set(), [brec]
+    while todo:
+        r = todo.pop()
+        if r in out:
+            continue
+        out.add(r)
+        for rec in P.brecords.get(r, []):
+            todo += [strip_targs(b) for b in rec['bases']]
+    return out
+
+
+def delegation_swaps(P, fn):
+    """calls by which `fn` forwards to another implementation of the same virtual method (same method name, callee class is a
+    base of / the interface implemented by fn's class): arguments that are plain parameters of fn must stay in their position.
+    Returns list of (call node, arg index, own param index, own param name)."""
+    out = []
+    own = {p['ref']: k for k, p in enumerate(fn.params)}
+    for i in fn.calls():
+        n = fn.N(i)
+        if n['k'] != 'CXXMemberCallExpr' or short_of(fn.callee(i)) != fn.short or not n.get('virt'):
+            continue
+        crec = strip_targs(n.get('rec') or '')
+        common = _ancestors(P, crec) & _ancestors(P, fn.brecord)
+        if not any(m.get('short') == fn.short and m.get('virtual') for a in common for rec in P.brecords.get(a, []) for m in rec.get('methods', [])):
+            continue        # same name in an unrelated interface (session_storage::load vs session_api::load)
+        args = fn.args(i)
+        if len(args) != len(fn.params):
+            continue
+        for j, a in enumerate(args):
+            r = fn.ref_of(a)
+            if r in own:
+                out.append((i, j, own[r], fn.params[own[r]]['name']))
+    return out
